@@ -1,12 +1,283 @@
-(* C18 — property theorems only. *)
+(* C18 — property theorems only.  Each is closed by [exact]/[apply] of lemmas
+   from Proofs*.v and followed by Print Assumptions.
+
+   Vocabulary: [p] = (certValidity, clockSkewAllowance, verifier bound);
+   [cparams] = the values in /repo now (gen/Consts_c18.v, regenerated each run);
+   [off] = the key's bucket offset; instants are ns since the epoch;
+   [history_ok p off t0 ops]: well-formed parameters, the manager is created at
+   t0 >= off + skew (any wall clock after 1970-01-15T01:00Z) and then sees any
+   finite sequence of clock advances (any d >= 0, hence any number of rollovers
+   with the timer firing exactly at End - skew), restarts, second managers and
+   regenerations. *)
 From Coq Require Import List ZArith Bool Lia.
-From Verif Require Import lib.Wire c18.Model c18.Spec c18.Proofs c18.Proofs_verify gen.Consts_c18.
+From Verif Require Import lib.Wire c18.Model c18.Spec c18.Proofs c18.Proofs_verify c18.Proofs_trace gen.Consts_c18.
 Import ListNotations.
 Local Open Scope Z_scope.
 
+(* regenerated obligation: the constants in /repo are whole seconds, the skew
+   is positive, two skews fit into the validity, the validity is at most the
+   14 days of the property and the verifier's bound IS 14 days *)
+Theorem c18_consts_wf :
+  wf cparams /\ pV cparams <= spec_max_validity /\ pMaxLife cparams = spec_max_validity.
+Proof.
+  unfold wf. repeat split; try (vm_compute; congruence).
+  - apply Z.mod_divide; [discriminate | vm_compute; reflexivity].
+  - apply Z.mod_divide; [discriminate | vm_compute; reflexivity].
+Qed.
+Print Assumptions c18_consts_wf.
+
+(* THE property on timelines: the monitor that is run on the implementation's
+   observations accepts every trace of the model — for every key offset, every
+   start instant of the domain, every sequence of clock steps of at most one
+   period each (the harness contract that no period goes unsampled; any number
+   of them, hence any number of rollovers), restarts, second managers and
+   regenerated certificates.  Clauses checked at every sample: served
+   certificate valid for >= skew before and after, validity <= 14 days, both
+   advertised lists contain the served hash and the hash of whatever is served
+   at any later sample of the current or following period, a freshly started
+   manager serves what the running one serves, equal (start, end) means equal
+   certificate. *)
+Theorem c18_manager_trace_holds : forall H p off t0 ops,
+  wf p -> wfoff off -> pV p <= spec_max_validity ->
+  (forall a b, H a (a + pV p) = H b (b + pV p) -> a = b) ->
+  off + pS p <= t0 -> Forall (op_small p) ops ->
+  monitor_mgr (pS p) (model_events H p off t0 ops) = [] /\
+  events_wf (pP p) (model_events H p off t0 ops) = true.
+Proof.
+  intros H p off t0 ops Hwf Hoff HV Hinj Ht Hops. split.
+  - exact (monitor_mgr_model H p off Hwf Hoff Hinj HV t0 ops Ht Hops).
+  - exact (model_events_wf H p off t0 ops Hops).
+Qed.
+Print Assumptions c18_manager_trace_holds.
+
+(* the same, for the constants now in /repo and an offset derived from the
+   first two public-key bytes exactly as init does: this is literally the
+   branch of monitor_case taken for a kind-1 case *)
+Theorem c18_monitor_case_accepts_model : forall H b0 b1 t0 ops,
+  (forall a b, H a (a + pV cparams) = H b (b + pV cparams) -> a = b) ->
+  in_domain cparams b0 b1 t0 = true -> Forall (op_small cparams) ops ->
+  let evs := model_events H cparams (key_offset cparams b0 b1) t0 ops in
+  (if in_domain cparams b0 b1 t0 && events_wf (pP cparams) evs
+   then monitor_mgr (pS cparams) evs else [ERR_MALFORMED; 1]) = [].
+Proof.
+  intros H b0 b1 t0 ops Hinj Hd Hops. cbv zeta. rewrite Hd.
+  destruct c18_consts_wf as (Hwf & HV & _).
+  unfold in_domain in Hd. repeat (apply andb_true_iff in Hd as [Hd ?]).
+  assert (Hoff : wfoff (key_offset cparams b0 b1)) by (apply key_offset_wf; [exact Hwf | lia | lia]).
+  destruct (c18_manager_trace_holds H cparams _ t0 ops Hwf Hoff HV Hinj ltac:(lia) Hops) as [E1 E2].
+  rewrite E2. exact E1.
+Qed.
+Print Assumptions c18_monitor_case_accepts_model.
+
+(* sentence 1a: at every instant the served certificate has been valid for at
+   least the skew allowance and stays valid for (more than) that long; its
+   validity period is exactly certValidity *)
 Theorem c18_served_valid_with_skew : forall p off t0 ops, history_ok p off t0 ops ->
   let w := run p off (start_world p off t0) ops in
   let c := served (w_mgr w) in
   c_start c + pS p <= w_now w /\ w_now w + pS p < c_end c /\ c_end c - c_start c = pV p.
 Proof. exact served_valid_l. Qed.
 Print Assumptions c18_served_valid_with_skew.
+
+(* sentence 1b: ... whose validity period does not exceed 14 days (for the
+   constants in /repo now) *)
+Theorem c18_validity_at_most_14d : forall off t0 ops, history_ok cparams off t0 ops ->
+  let c := served (w_mgr (run cparams off (start_world cparams off t0) ops)) in
+  c_end c - c_start c <= spec_max_validity.
+Proof.
+  intros off t0 ops Hh. cbv zeta. destruct (served_valid_l _ _ _ _ Hh) as (_ & _ & E).
+  rewrite E. apply c18_consts_wf.
+Qed.
+Print Assumptions c18_validity_at_most_14d.
+
+(* sentence 1c: the advertised hashes (address component and early-data list)
+   always contain the served certificate and the next one; the early-data list
+   also keeps the previous one *)
+Theorem c18_advertised_contains_current_and_next : forall p off t0 ops, history_ok p off t0 ops ->
+  let m := w_mgr (run p off (start_world p off t0) ops) in
+  In (served m) (m_addr m) /\ In (m_next m) (m_addr m) /\
+  In (served m) (m_ser m) /\ In (m_next m) (m_ser m) /\
+  (forall l, m_last m = Some l -> In l (m_ser m)).
+Proof. exact advertised_l. Qed.
+Print Assumptions c18_advertised_contains_current_and_next.
+
+(* sentence 1d: an address (or early-data list) read at any instant contains
+   the certificate served at every later instant up to the end of the
+   FOLLOWING certificate period (= End - skew + one period), whatever happens
+   in between (rollover, restarts) *)
+Theorem c18_address_survives_two_periods : forall p off t0 ops1 ops2,
+  history_ok p off t0 (ops1 ++ ops2) ->
+  let w1 := run p off (start_world p off t0) ops1 in
+  let w2 := run p off w1 ops2 in
+  w_now w2 < c_end (served (w_mgr w1)) - pS p + pP p ->
+  In (served (w_mgr w2)) (m_addr (w_mgr w1)) /\ In (served (w_mgr w2)) (m_ser (w_mgr w1)) /\
+  (served (w_mgr w2) = served (w_mgr w1) \/ served (w_mgr w2) = m_next (w_mgr w1)).
+Proof. exact address_survives_l. Qed.
+Print Assumptions c18_address_survives_two_periods.
+
+(* sentence 1e: certificates are a deterministic function of the host key and
+   the time bucket: after ANY history the served certificate is the one of the
+   bucket containing now - skew (a closed form that mentions neither the start
+   instant nor the rollovers nor the restarts), and a manager started now serves
+   and advertises exactly the same *)
+Theorem c18_cert_is_function_of_key_and_bucket : forall p off t0 ops, history_ok p off t0 ops ->
+  let w := run p off (start_world p off t0) ops in
+  let s := bucket_start p (w_now w - pS p) off in
+  served (w_mgr w) = mkCfg s (s + pV p) s (s + pV p) /\
+  m_cur (init p off (w_now w)) = served (w_mgr w) /\
+  m_next (init p off (w_now w)) = m_next (w_mgr w) /\
+  m_addr (init p off (w_now w)) = m_addr (w_mgr w).
+Proof. exact served_closed_form_l. Qed.
+Print Assumptions c18_cert_is_function_of_key_and_bucket.
+
+(* consequence for a dialer holding an address learned while bucket c was
+   served, dialing while c or c+1 is served by a manager that was not
+   restarted since: the served certificate is pinned by the address and every
+   hash of the address is confirmed by the server's early data (the reason
+   lastConfig is kept).  After a restart inside bucket c+1 the early-data list
+   no longer holds bucket c's hash: see the manifest's level_note. *)
+Theorem c18_learned_address_confirmed : forall H p off c hl c' hl',
+  wf p -> c <= c' <= c + 1 -> (c' = c + 1 -> hl' = true) ->
+  let addr := hashes_of H (m_addr (mgr_at p off c hl)) in
+  advertises addr (Hc H p off c') = true /\
+  confirm addr (hashes_of H (m_ser (mgr_at p off c' hl'))) = true.
+Proof. intros H p off c hl c' hl' _. exact (learned_address_confirmed H p off c hl c' hl'). Qed.
+Print Assumptions c18_learned_address_confirmed.
+
+(* sentence 2a, as stated: FALSE for the code.  verifyRawCerts accepts a
+   certificate with an RSA public key when its signature algorithm is RSA-PSS
+   (or any non-RSA issuer signature): witness below, reproduced on the real
+   code by the harness (known_findings/C18.json) *)
+Theorem c18_verify_sound_refuted : exists c hashes,
+  verify_raw_certs cparams [c] hashes = VOk /\ is_rsa c = true /\
+  monitor_verify [c] hashes (z_of_vres (verify_raw_certs cparams [c] hashes)) <> [].
+Proof.
+  exists (mkX 1 true true 2 (-3600 * SEC) (86400 * SEC)), [(SHA2_256, 1)].
+  split; [vm_compute; reflexivity|]. split; [reflexivity|]. vm_compute. discriminate.
+Qed.
+Print Assumptions c18_verify_sound_refuted.
+
+(* sentence 2a under the hypothesis the proof forces ([rsa_recognised]: the
+   signature is not RSA-PSS and an RSA public key comes with a PKCS#1 v1.5
+   signature): an accepted chain of the stated quantifier (length 0 or 1)
+   consists of one parseable certificate whose SHA-256, under the sha2-256
+   code, is in the dialed address, not RSA, valid for at most 14 days, and
+   NotBefore <= now <= NotAfter — i.e. the monitor run on the implementation
+   accepts whatever the model answers *)
+Theorem c18_verify_sound_partial : forall chain hashes,
+  (length chain <= 1)%nat -> Forall rsa_recognised chain ->
+  monitor_verify chain hashes (z_of_vres (verify_raw_certs cparams chain hashes)) = [] /\
+  (verify_raw_certs cparams chain hashes = VOk ->
+   exists c, chain = [c] /\ In (SHA2_256, x_hash c) hashes /\ x_parse c = true /\ is_rsa c = false /\
+             x_na c - x_nb c <= spec_max_validity /\ x_nb c <= 0 <= x_na c).
+Proof.
+  intros chain hashes Hl Hr. destruct c18_consts_wf as (_ & _ & HM). split.
+  - apply monitor_verify_ok; [rewrite HM; lia | exact Hl | exact Hr].
+  - intros Hv. destruct (verify_ok_inv _ _ _ Hv) as (pre & leaf & E & Ha & Hp & Hs & Hlife & Hb).
+    destruct chain as [|c [|c2 r]].
+    + destruct pre; discriminate.
+    + assert (pre = [] /\ leaf = c) as (-> & ->).
+      { destruct pre as [|a [|b r]]; cbn in E; [inversion E; auto | discriminate | discriminate]. }
+      exists c. split; [reflexivity|]. split; [apply mh_mem_In; exact Ha|]. split; [exact Hp|].
+      inversion Hr as [|? ? (Hpss & Hkey) _]; subst. split.
+      * unfold is_rsa. destruct (x_pubrsa c) eqn:Ek; [exfalso; apply Hs, Hkey; reflexivity|].
+        destruct (Z.eqb_spec (x_sig c) 1); [contradiction|]. destruct (Z.eqb_spec (x_sig c) 2); [contradiction|].
+        reflexivity.
+      * rewrite <- HM. split; assumption.
+    + cbn in Hl. lia.
+Qed.
+Print Assumptions c18_verify_sound_partial.
+
+(* sentence 2b: the dialer completes the connection only if the certificate
+   check passed AND the server's early data decoded AND every hash of the
+   dialed address is in it; and the dial monitor accepts the model's answers
+   (same hypothesis as above for the certificate) *)
+Theorem c18_dialer_requires_confirmation : forall chain addr dec srv,
+  (dial cparams chain addr dec srv = 0 ->
+   verify_raw_certs cparams chain addr = VOk /\ dec = true /\ forall h, In h addr -> In h srv) /\
+  ((length chain <= 1)%nat -> Forall rsa_recognised chain ->
+   monitor_dial chain addr dec srv (dial cparams chain addr dec srv) = []).
+Proof.
+  intros chain addr dec srv. split.
+  - apply dial_connected_inv.
+  - intros Hl Hr. destruct c18_consts_wf as (_ & _ & HM).
+    apply monitor_dial_ok; [rewrite HM; lia | exact Hl | exact Hr].
+Qed.
+Print Assumptions c18_dialer_requires_confirmation.
+
+(* ---- non-vacuity --------------------------------------------------------- *)
+(* the hypotheses are satisfiable: the constants are well-formed (above), a
+   hash function separating buckets exists, and a concrete history with four
+   rollovers, a restart and a second manager is in the domain *)
+Definition ex_H (s e : Z) : Z := s.
+Definition ex_ops : list op :=
+  [Adv 5; Probe; Adv (pP cparams); Adv (pP cparams - 7); Restart; Adv 1; Adv (pP cparams);
+   Regen 0 1; Adv (pP cparams); Probe].
+Definition ex_t0 : Z := 1700000000 * SEC + 123.
+
+Example ex_H_separates : forall a b, ex_H a (a + pV cparams) = ex_H b (b + pV cparams) -> a = b.
+Proof. intros a b E. exact E. Qed.
+
+Example ex_history_in_domain :
+  history_ok cparams (key_offset cparams 57 4) ex_t0 ex_ops /\
+  in_domain cparams 57 4 ex_t0 = true /\ Forall (op_small cparams) ex_ops.
+Proof.
+  split; [|split; [vm_compute; reflexivity|]].
+  - split; [apply c18_consts_wf|]. split; [apply key_offset_wf; [apply c18_consts_wf | lia | lia]|].
+    split; [vm_compute; congruence|]. repeat constructor; vm_compute; congruence.
+  - repeat constructor; vm_compute; congruence.
+Qed.
+
+(* four distinct certificates are served along it *)
+Example ex_four_rollovers :
+  let w := run cparams (key_offset cparams 57 4) (start_world cparams (key_offset cparams 57 4) ex_t0) ex_ops in
+  c_start (served (w_mgr w)) =
+  c_start (m_cur (init cparams (key_offset cparams 57 4) ex_t0)) + 4 * pP cparams.
+Proof. vm_compute. reflexivity. Qed.
+
+(* the monitor rejects bad timelines: a served certificate that is within the
+   last skew allowance of its life (the rollover came late) *)
+Definition late (e : ev) : ev :=
+  match e with
+  | EAdv d (mkSnap t l c n (mkCobs s en h) ser addr) => EAdv d (mkSnap t l c n (mkCobs (s - pP cparams) (en - pP cparams) h) ser addr)
+  | x => x
+  end.
+Example monitor_rejects_late_rollover :
+  monitor_mgr (pS cparams) (map late (model_events ex_H cparams (key_offset cparams 57 4) ex_t0 ex_ops)) <> [].
+Proof. vm_compute. discriminate. Qed.
+
+(* ... an address component that lacks the next certificate *)
+Definition drop_next (e : ev) : ev :=
+  match e with
+  | EInit (mkSnap t l c n v ser addr) => EInit (mkSnap t l c n v ser (firstn 1 addr))
+  | EAdv d (mkSnap t l c n v ser addr) => EAdv d (mkSnap t l c n v ser (firstn 1 addr))
+  | x => x
+  end.
+Example monitor_rejects_unadvertised_next :
+  monitor_mgr (pS cparams) (map drop_next (model_events ex_H cparams (key_offset cparams 57 4) ex_t0 ex_ops)) <> [].
+Proof. vm_compute. discriminate. Qed.
+
+(* ... a restarted manager that serves another certificate *)
+Definition other_on_restart (e : ev) : ev :=
+  match e with
+  | ERestart (mkSnap t l c n (mkCobs s en h) ser addr) =>
+      ERestart (mkSnap t l c n (mkCobs s en (h + 1)) ser ((SHA2_256, h + 1) :: addr))
+  | x => x
+  end.
+Example monitor_rejects_restart_with_other_cert :
+  monitor_mgr (pS cparams) (map other_on_restart (model_events ex_H cparams (key_offset cparams 57 4) ex_t0 ex_ops)) <> [].
+Proof. vm_compute. discriminate. Qed.
+
+(* the verifier monitor rejects an accepted expired / unpinned / too long /
+   RSA certificate and an empty chain; the dial monitor an unconfirmed hash *)
+Example monitor_rejects_bad_accepts :
+  monitor_case [2; 1; 1; 1; 0; 0; -10; -5;  1; 18; 1;  0] <> [] /\
+  monitor_case [2; 1; 1; 1; 0; 0; -10; 5;   1; 18; 2;  0] <> [] /\
+  monitor_case [2; 1; 1; 1; 0; 0; -10; 5;   1; 22; 1;  0] <> [] /\
+  monitor_case [2; 1; 1; 1; 0; 0; -10; 1209600000000000;  1; 18; 1;  0] <> [] /\
+  monitor_case [2; 1; 1; 1; 1; 1; -10; 5;   1; 18; 1;  0] <> [] /\
+  monitor_case [2; 0;  1; 18; 1;  0] <> [] /\
+  monitor_case [2; 1; 1; 1; 0; 0; -10; 5;   1; 18; 1;  0] = [] /\
+  monitor_case [3; 1; 1; 1; 0; 0; -10; 5;   2; 18; 1; 18; 2;  1;  1; 18; 1;  0] <> [] /\
+  monitor_case [3; 1; 1; 1; 0; 0; -10; 5;   2; 18; 1; 18; 2;  1;  2; 18; 2; 18; 1;  0] = [].
+Proof. vm_compute. repeat split; discriminate. Qed.
